@@ -31,12 +31,14 @@ def ns_doc():
     attributes with and without prefix; the default namespace undeclared and re-declared further in"""
     E, A, T, R = xdm.E, xdm.A, xdm.T, xdm.R
     U, V, D = "urn:u", "urn:v", "urn:d"
+    L = lambda v: A("lang", v, p="xml", u=xdm.XML_NS)
+    # xml:lang: the nearest declaration counts (fr inside en), en-US is also en, an empty value says "no language"
     return R(E("a", E("b", a=[A("x", "1"), A("x", "2", p="p", u=U)], u=U),
-                    E("b", p="p", u=U),
-                    E("b", T("t"), a=[A("x", "3", p="q", u=V)], p="q", u=V),
-                    E("b", E("a"), nsd=[["", ""]]),
-                    E("c", E("b", u=D), u=D, nsd=[["", D]]),
-               u=U, nsd=[["", U], ["p", U], ["q", V]]))
+                    E("b", p="p", u=U, a=[L("fr")]),
+                    E("b", T("t"), a=[A("x", "3", p="q", u=V), L("en-US")], p="q", u=V),
+                    E("b", E("a", a=[L("")]), nsd=[["", ""]]),
+                    E("c", E("b", u=D, a=[L("EN")]), u=D, nsd=[["", D]], a=[L("de")]),
+               u=U, nsd=[["", U], ["p", U], ["q", V]], a=[L("en")]))
 
 
 NSMAP = dict({"p": "urn:u", "q": "urn:v"}, **xpgen.EXT_NS)
@@ -206,6 +208,9 @@ def build_cases(rng, tier):
             e = path([step(ax, tst, abbr=False)])
             for ctx in range(1, nsflat["n"] + 1):
                 cases.append((nd, ctx, 1, 1, e, {}))
+    for la in ["en", "EN", "en-US", "fr", "de", "e", ""]:
+        for ctx in range(1, nsflat["n"] + 1):
+            cases.append((nd, ctx, 1, 1, fn("lang", lit(la)), {}))
     nrand = 6000 if quick else 120000
     varsets = [{}, {"n": {"t": "num", "v": {"k": "fin", "neg": False, "m": 16}}, "s": {"t": "str", "v": xdm.cps("t")},
                     "b": {"t": "bool", "v": True}}]
